@@ -35,7 +35,7 @@ Fixpoint skip_es (l : list Z) (literal rem : bool) (skip : nat) : nat :=
       | O =>
           let literal1 := if c =? ch_quote then negb literal else if c =? state_tk_REM then literal
                           else if c =? 0 then false else literal in
-          let rem1 := if c =? ch_quote then rem else if c =? state_tk_REM then true
+          let rem1 := if c =? ch_quote then rem else if (c =? state_tk_REM) && negb literal then true
                       else if c =? 0 then false else rem in
           if literal1 || rem1 then S (skip_es r literal1 rem1 O)
           else if is_end c then O
@@ -129,7 +129,7 @@ Definition start (segs : list seg) (k : nat) : nat := length (flat_map seg_bytes
 Definition plainb (b : Z) : bool :=
   negb (b =? 0) && negb (b =? ch_colon) && negb (b =? ch_quote) && negb (b =? state_tk_REM)
   && Nat.eqb (plus_bytes b) O.
-Definition strb (c : Z) : bool := negb (c =? 0) && negb (c =? ch_quote) && negb (c =? state_tk_REM).
+Definition strb (c : Z) : bool := negb (c =? 0) && negb (c =? ch_quote).
 
 Definition wf_tok (t : tok) : bool :=
   match t with
